@@ -331,6 +331,18 @@ class Exec:
             c["expect"] += 2
             c["enq_order"].append(i)
             self.loop.do(rd.feed_data, (json.dumps(msg) + "\n" + json.dumps(dict(__kind__="get_task_states")) + "\n").encode())
+        elif kind == "enq+cancel":
+            # one write carrying an enqueue and the cancel of the id it is going to get (ids are a counter): the task is cancelled before
+            # its worker ever ran — it must still end CANCELLED, not stay SUBMITTED
+            i = op[1]
+            t = sc["tasks"][i]
+            deps = [self.tids.get(d, 900 + d) for d in t["deps"]] + list(t.get("extra_deps", ()))
+            msg = dict(__kind__="enqueue_task", name=f"t{i}", script=f"run t{i}", time_limit=t.get("time_limit"), working_dir=self.scratch, deps=deps)
+            tid = len(self.issued)
+            self.cancel_named.append(tid)
+            c["expect"] += 1
+            c["enq_order"].append(i)
+            self.loop.do(rd.feed_data, (json.dumps(msg) + "\n" + json.dumps(dict(__kind__="cancel_task", tid=tid)) + "\n").encode())
         elif kind == "states":
             c["expect"] += 1
             feed(dict(__kind__="get_task_states"))
